@@ -124,4 +124,44 @@ def M44.showFixed {α : Type} (a : M44 α) : (List Seg) :=
 def M44.showSci {α : Type} (a : M44 α) : (List Seg) :=
   [Seg.lit ['('], Seg.tok 0 17 5378 9, Seg.lit [' '], Seg.tok 1 17 5378 9, Seg.lit [' '], Seg.tok 2 17 5378 9, Seg.lit [' '], Seg.tok 3 17 5378 9, Seg.lit ['\n', ' '], Seg.tok 4 17 5378 9, Seg.lit [' '], Seg.tok 5 17 5378 9, Seg.lit [' '], Seg.tok 6 17 5378 9, Seg.lit [' '], Seg.tok 7 17 5378 9, Seg.lit ['\n', ' '], Seg.tok 8 17 5378 9, Seg.lit [' '], Seg.tok 9 17 5378 9, Seg.lit [' '], Seg.tok 10 17 5378 9, Seg.lit [' '], Seg.tok 11 17 5378 9, Seg.lit ['\n', ' '], Seg.tok 12 17 5378 9, Seg.lit [' '], Seg.tok 13 17 5378 9, Seg.lit [' '], Seg.tok 14 17 5378 9, Seg.lit [' '], Seg.tok 15 17 5378 9, Seg.lit [')', '\n']]
 
+/-- extracted from the C++ template at T = Sym; 1 path(s) -/
+def V2.showKeepsState {α : Type} (a : V2 α) : Bool :=
+  true
+
+/-- extracted from the C++ template at T = Sym; 1 path(s) -/
+def V3.showKeepsState {α : Type} (a : V3 α) : Bool :=
+  true
+
+/-- extracted from the C++ template at T = Sym; 1 path(s) -/
+def V4.showKeepsState {α : Type} (a : V4 α) : Bool :=
+  true
+
+/-- extracted from the C++ template at T = Sym; 1 path(s) -/
+def C3.showKeepsState {α : Type} (a : V3 α) : Bool :=
+  true
+
+/-- extracted from the C++ template at T = Sym; 1 path(s) -/
+def C4.showKeepsState {α : Type} (a : C4 α) : Bool :=
+  true
+
+/-- extracted from the C++ template at T = Sym; 1 path(s) -/
+def Shear6.showKeepsState {α : Type} (a : Shear6 α) : Bool :=
+  true
+
+/-- extracted from the C++ template at T = Sym; 1 path(s) -/
+def Quat.showKeepsState {α : Type} (a : Quat α) : Bool :=
+  true
+
+/-- extracted from the C++ template at T = Sym; 1 path(s) -/
+def M22.showKeepsState {α : Type} (a : M22 α) : Bool :=
+  true
+
+/-- extracted from the C++ template at T = Sym; 1 path(s) -/
+def M33.showKeepsState {α : Type} (a : M33 α) : Bool :=
+  true
+
+/-- extracted from the C++ template at T = Sym; 1 path(s) -/
+def M44.showKeepsState {α : Type} (a : M44 α) : Bool :=
+  true
+
 end ImathVerif.Gen
